@@ -6,6 +6,7 @@ AllOps == {"new", "sTM", "sTAA", "set", "setitem", "setslice", "setQuat", "angle
            "muldiv", "abs", "floordiv", "l2g", "g2l"}
 MiniForms == {"list6", "mat44"}
 GroupOps == {"new", "inv", "matmul", "floordiv", "l2g", "g2l", "copy"}
+WrapOps == {"new", "sTAA", "set", "setitem", "setslice", "angleMod", "addsub", "muldiv", "copy"}
 Both == {1, 2}
 One == {1}
 NoOps == {}
